@@ -393,6 +393,14 @@ Theorem C05_wstep_other_shards : forall (c : wcfg) w op sh',
   (forall fn i, op_call c w op <> Some (sh', fn, i)) ->
   shard_accts (wstep c w op) sh' = shard_accts w sh'.
 Proof. exact wstep_other_shards. Qed.
+(* histories: a shard on which no step executes is the same after the whole history *)
+Theorem C05_wrun_other_shards : forall (c : wcfg) ops w sh',
+  never_on c w ops sh' -> shard_accts (wrun c w ops) sh' = shard_accts w sh'.
+Proof. exact wrun_other_shards. Qed.
+Example C05_never_on_def : forall (c : wcfg) w op r sh',
+  (never_on c w [] sh' <-> True)
+  /\ (never_on c w (op :: r) sh' <-> (forall fn i, op_call c w op <> Some (sh', fn, i)) /\ never_on c (wstep c w op) r sh').
+Proof. intros. split; reflexivity. Qed.
 (* a step that executes nothing or whose call fails changes no account at all *)
 Theorem C05_wstep_rejected : forall (c : wcfg) w op,
   match op_call c w op with
@@ -460,6 +468,7 @@ Print Assumptions C05_footprint_exact_nonce_refuted.
 Print Assumptions C05_wstep_shards.
 Print Assumptions C05_wstep_other_shards.
 Print Assumptions C05_wstep_rejected.
+Print Assumptions C05_wrun_other_shards.
 Print Assumptions C05_wstep_frame.
 Print Assumptions C05_wstep_frame_cell.
 Print Assumptions C05_wstep_frame_acct.
